@@ -84,7 +84,7 @@ def case_features(case):
         f["readers"] = case.split("(prog", 1)[0].count("(s ")
         ops = case.split("(ops", 1)[-1]
         for key, pat in (("op_next", "(next "), ("op_snap", "(snap "), ("op_restore", "(restore "), ("op_hostwrite", "(hset "), ("op_complete", "(complete "),
-                         ("op_newrunner", "(new "), ("op_newrunner_other_last_reader", "(newalt "), ("op_mutsnap", "(mutsnap "), ("op_restorebad", "(restorebad "), ("op_hostwrite_same_length", "(hrev "), ("op_late_command", "(addcmd ")):
+                         ("op_newrunner", "(new "), ("op_newrunner_other_last_reader", "(newalt "), ("op_mutsnap", "(mutsnap "), ("op_restorebad", "(restorebad "), ("op_hostwrite_same_length", "(hrev "), ("op_host_clear", "(hclear "), ("op_late_command", "(addcmd ")):
             f[key] = ops.count(pat)
         # nesting depth of statement lists
         d = mx = 0
@@ -105,7 +105,7 @@ def no_panic(obs, case):
 
 def after_end_absorbing(obs, case):
     """C12 on the implementation's own trace: per runner, after END every next is END with no effects, until a restore."""
-    ops = re.findall(r"\((next|snap|resnap|mutsnap|restorenil|restorebad|restore|hset|hrev|addcmd|complete|newalt|new) (\d+)", case.split("(ops", 1)[-1])
+    ops = re.findall(r"\((next|snap|resnap|mutsnap|restorenil|restorebad|restore|hset|hrev|hclear|addcmd|complete|newalt|new) (\d+)", case.split("(ops", 1)[-1])
     ended = {}
     for i, (op, j) in enumerate(ops):
         if i + 1 >= len(obs):
@@ -125,7 +125,7 @@ def after_end_absorbing(obs, case):
                 ended[j] = d["v"]
         elif op in ("restore", "restorenil", "new", "newalt") and d["res"].startswith(("RESTORE OK", "NEW")):
             ended.pop(j, None)
-        elif op in ("hset", "hrev") and j in ended:
+        elif op in ("hset", "hrev", "hclear") and j in ended:
             ended[j] = d["v"]
     return None
 
@@ -240,7 +240,7 @@ def numeric_contracts(obs, case):
 
 def snapshots_immutable(obs, case):
     """C07 on the implementation's own trace: every re-observation of a snapshot equals what it showed when taken"""
-    ops = re.findall(r"\((next|snap|resnap|mutsnap|restorenil|restorebad|restore|hset|hrev|addcmd|complete|newalt|new) (\d+)", case.split("(ops", 1)[-1])
+    ops = re.findall(r"\((next|snap|resnap|mutsnap|restorenil|restorebad|restore|hset|hrev|hclear|addcmd|complete|newalt|new) (\d+)", case.split("(ops", 1)[-1])
     snaps = []
     for i, (op, j) in enumerate(ops):
         if i + 1 >= len(obs):
